@@ -113,10 +113,30 @@ def chain(ctx):
         if '180' in text:
             decided.append(text)
             return False
+        if isinstance(v, sp.Equality) or '==' in text:
+            return False          # an angle in general position is no particular angle
         return None
     ev.decide = decide
     fn = ctx.fn(BOX, 'Box.set_abc')
-    ev.call_fn(fn, [box, a, b, c, al, be, ga, og], {}, Path({}))
+    try:
+        ev.call_fn(fn, [box, a, b, c, al, be, ga, og], {}, Path({}))
+    except WouldRaise as e:
+        ctx.ob('CHAIN', loc, 'lengths, angles and an origin given as an array are accepted', False, str(e)[:200], node=fn, key='set_abc accepts')
+        ev.decide = None
+        return
+    # exactly one right angle among three different angles (a monoclinic or triclinic cell): the same six identities, with cos 90 = 0
+    for rtag, angs in (('alpha = 90', (sp.Integer(90), be, ga)), ('beta = 90', (al, sp.Integer(90), ga)), ('gamma = 90', (al, be, sp.Integer(90)))):
+        bx1 = _box(cls, shape)
+        try:
+            ev.call_fn(fn, [bx1, a, b, c, angs[0], angs[1], angs[2], og], {}, Path({}))
+        except WouldRaise as e:
+            ctx.ob('CHAIN', loc, '%s with the other two angles oblique: accepted' % rtag, False, str(e)[:200], node=fn, key='right angle ' + rtag)
+            continue
+        V1 = bx1.attrs['_Box__vects']
+        c1 = [sp.cos(x * sp.pi / 180) for x in angs]
+        res = [V1[0].dot(V1[1]) - a * b * c1[2], V1[0].dot(V1[2]) - a * c * c1[1], V1[1].dot(V1[2]) - b * c * c1[0], V1[0].dot(V1[0]) - a ** 2, V1[1].dot(V1[1]) - b ** 2, V1[2].dot(V1[2]) - c ** 2]
+        ctx.ob('CHAIN', loc, '%s with the other two angles oblique: lengths and all three angles of the cell built are the ones given' % rtag, all(is_zero(e_) for e_ in res),
+               'residuals %s' % [str(sp.simplify(e_)) for e_ in res if not is_zero(e_)][:2], node=fn, key='right angle ' + rtag)
     ev.decide = None
     ctx.ob('CHAIN', loc, 'angles outside (0,180) are refused', len(decided) >= 1, node=fn)
     V = box.attrs['_Box__vects']
@@ -132,7 +152,12 @@ def chain(ctx):
     box = _box(cls, shape)
     fn = ctx.fn(BOX, 'Box.set_lengths')
     ev.decide = lambda t, v, p: True if 'lx > 0' in t.replace(' ', ' ') or '> 0' in t else None
-    ev.call_fn(fn, [box, lx, ly, lz, xy, xz, yz, og], {}, Path({}))
+    try:
+        ev.call_fn(fn, [box, lx, ly, lz, xy, xz, yz, og], {}, Path({}))
+    except WouldRaise as e:
+        ctx.ob('CHAIN', BOX + '::Box.set_lengths', 'lengths, tilts and an origin given as an array are accepted', False, str(e)[:200], node=fn, key='set_lengths accepts')
+        ev.decide = None
+        return
     ev.decide = None
     ctx.ob('CHAIN', BOX + '::Box.set_lengths', 'vectors are [[lx,0,0],[xy,ly,0],[xz,yz,lz]] with the given origin',
            equal(box.attrs['_Box__vects'], Vt) and equal(box.attrs['_Box__origin'], og), str(box.attrs['_Box__vects'].tolist()), node=fn)
@@ -498,6 +523,21 @@ def convert(ctx):
             continue
         ok = hasattr(back, 'shape') and tuple(back.shape) == shp and all(is_zero(sp.cancel(sp.together(a - b))) for a, b in zip(back.flat, r.flat))
         ctx.ob('CONVERT', BOX + '::Box.position_cartesian_to_relative', 'Cartesian -> relative inverts relative -> Cartesian for points of shape %s' % (shp,), ok, node=c2r, key='c2r %s' % (shp,))
+    # concrete cells with many zero entries (any shortcut taken for "simple" cells must still be the inverse): axis-permuted orthogonal, diagonal, one tilt only, one zero row entry
+    R_ = sp.Rational
+    for ctag, Vc in (('orthogonal cell with a along y, b along z, c along x', [[0, 3, 0], [0, 0, 4], [5, 0, 0]]), ('axis-aligned orthogonal cell', [[3, 0, 0], [0, 4, 0], [0, 0, 5]]),
+                     ('monoclinic cell, one tilt', [[3, 0, 0], [0, 4, 0], [R_(-3, 2), 0, 5]]), ('rotated cell with three zero entries', [[0, 3, 4], [0, -4, 3], [5, 0, 0]])):
+        Vc = np.array([[sp.sympify(x) for x in row] for row in Vc], dtype=object)
+        oc = np.array([R_(1, 2), R_(-2), R_(3)], dtype=object)
+        rc = np.array([[R_(1, 4), R_(1, 3), R_(1, 5)], [R_(7, 2), R_(-5, 3), R_(3, 4)]], dtype=object)
+        boxc = _box(cls, shape, Vc, oc)
+        try:
+            backc = ev.call_fn(c2r, [boxc, rc.dot(Vc) + oc], {}, Path({}))
+            okc = hasattr(backc, 'shape') and tuple(backc.shape) == (2, 3) and all(is_zero(sp.nsimplify(sp.sympify(a_)) - b_) for a_, b_ in zip(np.ravel(backc), np.ravel(rc)))
+            detc = 'got %s' % ([str(x) for x in np.ravel(backc)],)
+        except WouldRaise as e:
+            okc, detc = False, str(e)[:200]
+        ctx.ob('CONVERT', BOX + '::Box.position_cartesian_to_relative', '%s: Cartesian -> relative recovers the relative coordinates' % ctag, bool(okc), detc, node=c2r, key='c2r concrete ' + ctag[:30])
     for fn, pname in ((r2c, 'relpos'), (c2r, 'cartpos')):
         muts, eff = effects.param_mutations(fn, {pname})
         ctx.ob('CONVERT', BOX + '::Box.' + fn.name, 'the conversion does not write to the array it is given', not muts,
